@@ -63,20 +63,28 @@ def mes_table(ctx):
         elif key == "Capture":
             _rec(d, key, {r for _, r, _ in rows} == {"matches_empty_string(a1.child_op)"}, "Capture::matches_empty_string must be its child's", b.loc())
         elif key == "Choice":
-            cl = ctx.body(b.path + "::{closure#0}")
-            goodc = cl is not None
-            if cl:
-                for p in ctx.walk(cl).paths:
-                    gs, r = summarize(p)
-                    gs = [_sh(g) for g in gs]
-                    r = _sh(r)
-                    M = "matches_empty_string(a3)"
-                    if ("eq(1024, %s)" % M) in gs or ("eq(%s, 1024)" % M) in gs:
-                        goodc = goodc and r == "a2"
+            # an accumulation over the branches from 0: a branch that answers NEVER leaves the accumulator alone, any
+            # other answer is OR-ed in (read as a loop, however it is spelt: a for loop, fold, filter + fold)
+            from ..lockstep import accumulation
+            A = accumulation(ctx, b)
+            M = "matches_empty_string(a1.branches[k])"
+            goodc = A is not None and A["seq"] == "0..len(a1.branches)" and A["init"] == "0" and bool(A["turns"])
+            why = "" if goodc else "not an accumulation over all branches from 0: %s" % (A and {k_: A[k_] for k_ in ("seq", "init")})
+            if goodc:
+                for gs_, nv in A["turns"]:
+                    gs_ = [_sh(g) for g in gs_]
+                    nv = _sh(nv) if nv else nv
+                    never = any(g in ("eq(%s, 1024)" % M, "eq(1024, %s)" % M) for g in gs_)
+                    notnever = any(g in ("!eq(%s, 1024)" % M, "!eq(1024, %s)" % M) for g in gs_)
+                    if never:
+                        goodc = goodc and nv is None
+                    elif notnever:
+                        goodc = goodc and nv in ("bitor(%s, ACC)" % M, "bitor(ACC, %s)" % M)
                     else:
-                        goodc = goodc and r in ("bitor(a2, %s)" % M, "bitor(%s, a2)" % M)
-            rs = {r for _, r, _ in rows}
-            _rec(d, key, goodc and any("fold(a1.branches, 0, " in r for r in rs), "Choice::matches_empty_string must OR the non-NEVER answers of its branches from 0 (so it never claims NEVER)", b.loc())
+                        goodc = False
+                    if not goodc and not why:
+                        why = "a turn with guards %s leaves the accumulator %s" % (gs_, nv)
+            _rec(d, key, goodc, "Choice::matches_empty_string must OR the non-NEVER answers of its branches from 0 (so it never claims NEVER): %s" % why, b.loc())
         elif key == "Sequence":
             # every return of NEVER is justified by an operand's NEVER on that path; ANYWHERE only after all were ANYWHERE
             w = ctx.walk(b, max_visits=2)
